@@ -194,7 +194,7 @@ def detect (var : Variant) (perm : Perm) (path : List Nat) (h : Heap) (v : Val) 
 
 /-! ## `Serialize` -/
 
-inductive SErr
+inductive VErr
   | cycle      -- "can not serialize circular reference data"
   | size       -- "can not serialize length over the uplimit"
   | badtype    -- BuildParamToNative on a map
@@ -226,8 +226,8 @@ def encLeaf : Val → Bytes
   | .ref _ => []
 
 /-- fold of a recursive call over the children; `size` = `sink.Size()` before, `i` = index of the first child -/
-def serList (rec : List Nat → Val → Nat → Except SErr Bytes) (path : List Nat) :
-    Nat → List Val → Nat → Except SErr Bytes
+def serList (rec : List Nat → Val → Nat → Except VErr Bytes) (path : List Nat) :
+    Nat → List Val → Nat → Except VErr Bytes
   | _, [], _ => .ok []
   | i, v :: vs, size =>
     match rec (i :: path) v size with
@@ -238,12 +238,12 @@ def serList (rec : List Nat → Val → Nat → Except SErr Bytes) (path : List 
       | .ok os => .ok (o ++ os)
 
 /-- `sink.Size() > MAX_BYTEARRAY_SIZE` at the end of every `Serialize` call (cumulative size) -/
-def chkSize (size : Nat) (out : Bytes) : Except SErr Bytes :=
+def chkSize (size : Nat) (out : Bytes) : Except VErr Bytes :=
   if size + out.length > MAX_BYTEARRAY_SIZE then .error .size else .ok out
 
 /-- `VmValue.Serialize(sink)`: returns the bytes this call appends. `size` = bytes already in the sink.
 The detector runs at **every** level (each recursive `Serialize` starts with `CircularRefAndDepthDetection()`). -/
-def ser (var : Variant) (perm : Perm) (h : Heap) : Nat → List Nat → Val → Nat → Except SErr Bytes
+def ser (var : Variant) (perm : Perm) (h : Heap) : Nat → List Nat → Val → Nat → Except VErr Bytes
   | 0, _, _, _ => .error .fuel
   | f+1, path, v, size =>
     if detect var perm path h v then .error .cycle else
@@ -262,7 +262,7 @@ def ser (var : Variant) (perm : Perm) (h : Heap) : Nat → List Nat → Val → 
 least one byte, and every call that returns checks the size -/
 def serFuel : Nat := MAX_BYTEARRAY_SIZE + 2
 
-def serialize (var : Variant) (perm : Perm) (h : Heap) (v : Val) : Except SErr Bytes :=
+def serialize (var : Variant) (perm : Perm) (h : Heap) (v : Val) : Except VErr Bytes :=
   ser var perm h serFuel [] v 0
 
 /-! ## `BuildParamToNative` (argument marshalling for native contract calls): no size limit -/
@@ -273,7 +273,7 @@ def natLeaf : Val → Bytes
   | .int z => writeVarBytes (toNeo z)
   | .ref _ => []
 
-def natv (var : Variant) (perm : Perm) (h : Heap) : Nat → List Nat → Val → Except SErr Bytes
+def natv (var : Variant) (perm : Perm) (h : Heap) : Nat → List Nat → Val → Except VErr Bytes
   | 0, _, _ => .error .fuel
   | f+1, path, v =>
     if detect var perm path h v then .error .cycle else
@@ -291,7 +291,7 @@ def natv (var : Variant) (perm : Perm) (h : Heap) : Nat → List Nat → Val →
 
 /-- A run that nests deeper than the number of objects revisits an object on the current path; nothing but the detector
 can stop `BuildParamToNative`, so such a run never returns. -/
-def buildParamToNative (var : Variant) (perm : Perm) (h : Heap) (v : Val) : Except SErr Bytes :=
+def buildParamToNative (var : Variant) (perm : Perm) (h : Heap) (v : Val) : Except VErr Bytes :=
   natv var perm h (h.length + 2) [] v
 
 /-! ## `Deserialize`: produces a fresh tree (every container is a new object) -/
